@@ -244,9 +244,7 @@ class AsyncApi:
                 raise
 
     async def sleep(self, d):
-        from .aloop import sleep_until
-
-        await sleep_until(self.world.executor, self.world.now + d)
+        await self.world.executor.asleep(self.world.now + d)
 
     async def net_read(self, h, max_bytes, timeout=None):
         return await h.resp.extensions["network_stream"].read(max_bytes, timeout=timeout)
